@@ -193,7 +193,14 @@ def run_case(case):
             if oa is not None and (oa.dtype != r0.dtype or not np.array_equal(oa, r0.data, equal_nan=True)):
                 viol.append({"monitor": "O-meta", "mech": f"value:{fn}:{sp}:array", "msg": f"{fn}: the out= array holds {oa.ravel()[:4]} {oa.dtype}; mg gives {r0.data.ravel()[:4]} {r0.dtype}"})
         if r.dtype != r0.dtype or r.shape != r0.shape or not (np.array_equal(r.data, r0.data, equal_nan=True) or ulp_close(r.data, r0.data, ulps)):
-            viol.append({"monitor": "O-meta", "mech": f"value:{fn}:{sp}", "msg": f"{fn}: mg gives {r0.data.ravel()[:4]} {r0.dtype}; {sp} gives {r.data.ravel()[:4]} {r.dtype}"})
+            pys = any(isinstance(a, (int, float)) and not isinstance(a, bool) for a in st.get("a", []))
+            with np.errstate(all="ignore"):
+                castclose = r.shape == r0.shape and r.dtype != r0.dtype and np.allclose(r.data.astype(np.float64), r0.data.astype(np.float64),
+                                                                                         rtol=1e-2 if np.float16 in (r.dtype, r0.dtype) else 1e-5, equal_nan=True)
+            viol.append({"monitor": "O-meta", "mech": f"value:{fn}:{sp}", "pyscalar_dtype_only": bool(pys and castclose),
+                         "msg": f"{fn}: mg gives {r0.data.ravel()[:4]} {r0.dtype}; {sp} gives {r.data.ravel()[:4]} {r.dtype}"})
+            if pys and castclose:
+                continue   # gradients then differ in dtype-rounding only: one finding, reported once
         if not inplace and r.constant != r0.constant:
             viol.append({"monitor": "O-meta", "mech": f"constant:{fn}:{sp}", "msg": f"{fn}: constant {r0.constant} via mg but {r.constant} via {sp}"})
         if inplace and r0.constant:
@@ -298,3 +305,12 @@ def run_negative():
         except Exception:
             chk("ufunc." + meth, True, "")
     return {"viol": viol, "counters": cnt, "sets": sets, "sig": "negative", "nontrivial": True}
+
+
+def classify(v, case):
+    m = v.get("mech") or v["monitor"]
+    if m.startswith("value:") and v.get("pyscalar_dtype_only"):
+        # the operator route for x ** 1 / x ** 2 follows NumPy's weak Python-scalar promotion, mg.power(x, 1) wraps the scalar as a
+        # strongly typed array: the C03 finding seen from the spelling side
+        return "pyscalar-strong-promotion"
+    return m
